@@ -952,13 +952,22 @@ class Evaluator:
         pass
 
     def st_Import(self, fr, st):
+        # imports inside a function: the module's import table (which covers every import statement of the file)
+        # resolves the alias, to a package module / function / class or to an external name
         for a in st.names:
             alias = a.asname or a.name.split(".")[0]
+            if alias in fr.mod.imports:
+                fr.env.vars.pop(alias, None)
+                continue
             fr.env.vars[alias] = name(a.name if a.asname else a.name.split(".")[0])
 
     def st_ImportFrom(self, fr, st):
         for a in st.names:
-            fr.env.vars[a.asname or a.name] = name(f"{st.module}.{a.name}")
+            alias = a.asname or a.name
+            if alias in fr.mod.imports:
+                fr.env.vars.pop(alias, None)
+                continue
+            fr.env.vars[alias] = name(f"{st.module}.{a.name}")
 
     def st_Return(self, fr, st):
         v = self.eval(fr, st.value) if st.value is not None else NONE
